@@ -281,6 +281,9 @@ def build_unit(unit, log):
         meta.update(line=rsparse.line_of(src, a), end_line=rsparse.line_of(src, c),
                     sha256=hashlib.sha256(raw.encode()).hexdigest())
         text = _apply_rewrites(text, unit.get('rw', []), log, uid, 'item')
+        if unit.get('properties'):
+            meta['mode'] = 'body'                   # a verified impl block (every member), not a declaration
+            meta['fns'] = unit.get('fns', [])       # exec fns the solver must have been asked about (vacuity guard)
         return text, meta
     if kind in ('struct', 'enum', 'trait'):
         it = rsparse.find_item(src, kind, unit['name'])
